@@ -291,6 +291,33 @@ func (c *Ctx) pipeSaveName(save *core.FuncInfo) {
 		c.S.Decide(ok, "C03", "PIPE-SAVE-NAME", fi.QName(), c.P.Pos(cs.Call.Pos()),
 			"the saved name is the result of the unique-name function applied to the same document's definitions",
 			"a definition is saved under "+exprStr(cs.Call.Args[1])+": "+why+" — an existing definition can be overwritten")
+		// the name remembered for later passes (map[string]string of the flatten context) is the saved name
+		ast.Inspect(fi.Decl.Body, func(nd ast.Node) bool {
+			as, isAs := nd.(*ast.AssignStmt)
+			if !isAs || len(as.Lhs) != 1 || len(as.Rhs) != 1 {
+				return true
+			}
+			ix, isIx := core.Unparen(as.Lhs[0]).(*ast.IndexExpr)
+			if !isIx {
+				return true
+			}
+			mt, isMap := info.TypeOf(ix.X).Underlying().(*types.Map)
+			if !isMap || !core.IsString(mt.Elem()) || !core.IsString(mt.Key()) {
+				return true
+			}
+			sel, isSel := core.Unparen(ix.X).(*ast.SelectorExpr)
+			if !isSel {
+				return true
+			}
+			if fv := core.FieldOf(info, sel); fv == nil || fv.Pkg() == nil || fv.Pkg().Path() != core.ModPath {
+				return true
+			}
+			same := core.ObjOf(info, as.Rhs[0]) != nil && core.ObjOf(info, as.Rhs[0]) == nameObj
+			c.S.Decide(same, "C01", "PIPE-REMEMBERED-NAME", fi.QName()+"/"+exprStr(ix.X), c.P.Pos(as.Pos()),
+				"the name remembered for this $ref is the name the definition is saved under",
+				"the name remembered in "+exprStr(ix.X)+" ("+exprStr(as.Rhs[0])+") is not the name the definition is saved under ("+exprStr(cs.Call.Args[1])+"): a later occurrence of the same $ref is re-pointed to another definition")
+			return true
+		})
 	}
 	if n < 2 {
 		c.S.Undecided("C03", "PIPE-SAVE-NAME", "floor", "-", fmt.Sprintf("%d callers of schutils.Save (expected 2)", n))
